@@ -148,7 +148,7 @@ def perturb_int(rng, c, heads=('int',), deltas=(-1, 1, 2, 4, 8, -4)):
     if not cands:
         return c
     p, n = rng.choice(cands)
-    v = max(0, n[1] + rng.choice(deltas)) if tag(n) != 'int' else n[1] + rng.choice(deltas)
+    v = max(0, n[1] + rng.choice(deltas)) if tag(n) != 'int' else max(-(1 << 63), min((1 << 63) - 1, n[1] + rng.choice(deltas)))
     return replace_at(c, p, [n[0], v])
 
 def std_worlds(rng, n, opts=None, prefix='w', perturb=0.0, ps_choices=(4, 8)):
